@@ -35,3 +35,8 @@ func JSONMsg(v any) []byte                    { return nil }
 
 func cellCut(b []byte, cell, headerBytes int) int { return cell }
 func cellCount(b []byte, headerBytes int) int { return len(b) }
+
+// GzipStream presents the buffer's bytes (up to its Limit) as the content of a gzip stream. The engine models
+// compress/gzip as the identity, so here the buffer itself is the stream; the native flavour wraps the bytes in
+// a real gzip container (cut short without its trailer when the buffer is truncated).
+func GzipStream(b *Buf) *Buf { return b }
